@@ -181,6 +181,12 @@ class Exec:
     def collect(self):
         for s in self.sessions:
             self._promote(s)
+            for r in s.posts:
+                if r.done and r.status != 200 and getattr(r, '_pong_t', None) is not None:
+                    # the POST that carried a PONG was refused: the server never saw it
+                    if r._pong_t in s.pongs:
+                        s.pongs.remove(r._pong_t)
+                    r._pong_t = None
             r = s.open_req
             if r is not None and r.done and not getattr(r, '_harvested', False):
                 r._harvested = True
@@ -357,6 +363,7 @@ class Exec:
                                   'pkts': [(3, None)], 'raw': '3', 'req': None})
         else:
             r = self._post_raw(s, b'3')
+            r._pong_t = self.now
             s.client_sent.append({'t': self.now, 'via': 'post', 'conn': None,
                                   'pkts': [(3, None)], 'raw': '3', 'req': r})
 
@@ -484,6 +491,7 @@ class Exec:
             if declared is None and len(body) <= limit and len(pkts) <= 16 and \
                     all(t in (3, 4, 5) for t, _ in pkts[:k]):
                 s.pongs.append(self.now)
+                r._pong_t = self.now        # withdrawn in collect() if the POST is refused
 
     def op_upg_connect(self, a):
         s = self.sess(a['s'])
